@@ -74,7 +74,12 @@ func (t *_ticker) run() {
 
 		case <-t.resetch:
 			if !timer.Stop() {
-				<-timer.C
+				// the timer has fired: drain its channel unless the value was
+				// already received by the timer case below
+				select {
+				case <-timer.C:
+				default:
+				}
 			}
 			timer.Reset(t.nextPeriod())
 			nextch = nil
